@@ -278,6 +278,7 @@ func rulePrint(c *Ctx) {
 	n += printFields(c)
 	n += printNil(c)
 	n += printPrec(c)
+	n += printGreater(c)
 	c.atLeast("printer obligations", n, 120)
 }
 
@@ -994,4 +995,206 @@ func printPrec(c *Ctx) int {
 	}
 	c.atLeast("precedence levels compared", levels, 12)
 	return n
+}
+
+// ---------------------------------------------------------------- GREATER in print context
+
+// printGreater: inside a print statement's argument list the parser does not accept an
+// unparenthesised `>` (it is the redirect). `print (a > b, c)` is parsed into a two-argument
+// statement whose tree no longer records the parentheses, so the statement printer is the only
+// place that can put them back: it must look for a > that no bracket of its own encloses, in
+// every node type whose printer can leave a comparison child bare.
+func printGreater(c *Ctx) int {
+	n := 0
+	ap := c.pkg("internal/ast")
+	info := ap.TypesInfo
+	ps := c.funcDecl("internal/ast", "printString")
+	if ps == nil {
+		c.undecided("anchor:printString", token.NoPos, "ast.printString not found")
+		return 0
+	}
+	// functions of package ast called from printString
+	var detector *ast.FuncDecl
+	ast.Inspect(ps.Body, func(nd ast.Node) bool {
+		call, ok := nd.(*ast.CallExpr)
+		if !ok {
+			return true
+		}
+		id, ok := call.Fun.(*ast.Ident)
+		if !ok {
+			return true
+		}
+		f, ok := info.Uses[id].(*types.Func)
+		if !ok || f.Pkg() != ap.Types {
+			return true
+		}
+		fd := c.funcDecl("internal/ast", f.Name())
+		if fd == nil || fd.Body == nil {
+			return true
+		}
+		mentions := false
+		ast.Inspect(fd.Body, func(m ast.Node) bool {
+			if se, ok := m.(*ast.SelectorExpr); ok && se.Sel.Name == "GREATER" {
+				mentions = true
+			}
+			return true
+		})
+		if mentions {
+			detector = fd
+		}
+		return true
+	})
+	n++
+	if detector == nil {
+		c.bad("print-greater:detector", ps.Pos(), "the print/printf statement printer never looks for a `>` comparison among its arguments: `print (a > b, c)` is printed as `print a > b, c`, where the > is a redirect")
+		return n
+	}
+	c.ok("print-greater:detector", detector.Pos(), "printString asks %s whether an argument contains a bare > before writing the list", detector.Name.Name)
+	// its result must decide a parenthesised form: an if in printString calling it whose body concatenates "(" and ")"
+	wraps := false
+	ast.Inspect(ps.Body, func(nd ast.Node) bool {
+		is, ok := nd.(*ast.IfStmt)
+		if !ok {
+			return true
+		}
+		callsDet := false
+		ast.Inspect(is.Cond, func(m ast.Node) bool {
+			if call, ok := m.(*ast.CallExpr); ok && isIdent(call.Fun, detector.Name.Name) {
+				callsDet = true
+			}
+			return true
+		})
+		if !callsDet {
+			return true
+		}
+		open, close := false, false
+		ast.Inspect(is.Body, func(m ast.Node) bool {
+			if s, err := strconv.Unquote(litText2(m)); err == nil {
+				if strings.HasSuffix(s, "(") {
+					open = true
+				}
+				if strings.HasPrefix(s, ")") {
+					close = true
+				}
+			}
+			return true
+		})
+		wraps = wraps || (open && close)
+		return true
+	})
+	n++
+	c.check(wraps, "print-greater:wrap", ps.Pos(), "a list with a bare > is written inside ( )", "printString consults "+detector.Name.Name+" but does not write the argument list inside parentheses when it answers yes")
+	// node types whose printer can leave a comparison child bare: those with some precedence <= the comparison level
+	cmpPrec := int64(-1)
+	precs := map[string][]int64{}
+	scope := ap.Types.Scope()
+	exprI, _ := scope.Lookup("Expr").Type().Underlying().(*types.Interface)
+	for _, name := range scope.Names() {
+		tn, ok := scope.Lookup(name).(*types.TypeName)
+		if !ok {
+			continue
+		}
+		if _, ok := tn.Type().Underlying().(*types.Struct); !ok || exprI == nil || !types.Implements(types.NewPointer(tn.Type()), exprI) {
+			continue
+		}
+		fd := c.funcDecl("internal/ast", name+".precedence")
+		if fd == nil {
+			continue
+		}
+		ast.Inspect(fd.Body, func(m ast.Node) bool {
+			switch x := m.(type) {
+			case *ast.CaseClause:
+				isGreater := false
+				for _, e := range x.List {
+					if selName(e) == "GREATER" {
+						isGreater = true
+					}
+				}
+				for _, st := range x.Body {
+					if r, ok := st.(*ast.ReturnStmt); ok && len(r.Results) == 1 {
+						if id, ok := r.Results[0].(*ast.Ident); ok {
+							if k, ok := info.Uses[id].(*types.Const); ok {
+								if v, ok := constantInt(k); ok && isGreater {
+									cmpPrec = v
+								}
+							}
+						}
+					}
+				}
+			case *ast.ReturnStmt:
+				if len(x.Results) == 1 {
+					if id, ok := x.Results[0].(*ast.Ident); ok {
+						if k, ok := info.Uses[id].(*types.Const); ok {
+							if v, ok := constantInt(k); ok {
+								precs[name] = append(precs[name], v)
+							}
+						}
+					}
+				}
+			}
+			return true
+		})
+	}
+	if cmpPrec < 0 {
+		c.undecided("print-greater:prec", token.NoPos, "precedence of the > comparison not found in BinaryExpr.precedence")
+		return n
+	}
+	// does the printer of the type print an expression child at all?
+	printsChild := func(name string) bool {
+		fd := c.funcDecl("internal/ast", name+".String")
+		if fd == nil {
+			return false
+		}
+		found := false
+		ast.Inspect(fd.Body, func(m ast.Node) bool {
+			if call, ok := m.(*ast.CallExpr); ok && isIdent(call.Fun, "parenthesize") {
+				found = true
+			}
+			return true
+		})
+		return found
+	}
+	covered := map[string]bool{}
+	ast.Inspect(detector.Body, func(m ast.Node) bool {
+		if cc, ok := m.(*ast.CaseClause); ok {
+			for _, e := range cc.List {
+				if t := info.TypeOf(e); t != nil {
+					if nm := named(deref(t)); nm != nil {
+						covered[nm.Obj().Name()] = true
+					}
+				}
+			}
+		}
+		return true
+	})
+	var names []string
+	for name := range precs {
+		names = append(names, name)
+	}
+	sort.Strings(names)
+	need := 0
+	for _, name := range names {
+		low := false
+		for _, p := range precs[name] {
+			if p <= cmpPrec {
+				low = true
+			}
+		}
+		if !low || !printsChild(name) {
+			continue
+		}
+		need++
+		n++
+		c.check(covered[name], "print-greater:covers:"+name, detector.Pos(), name+" is searched (its printer can leave a > child without parentheses)",
+			detector.Name.Name+" has no case for "+name+", whose printer writes a child at or below the comparison level without parentheses: a `>` inside it is printed bare in a print argument list")
+	}
+	c.atLeast("node types that can hold a bare >", need, 4)
+	return n
+}
+
+func litText2(n ast.Node) string {
+	if b, ok := n.(*ast.BasicLit); ok {
+		return b.Value
+	}
+	return ""
 }
